@@ -171,6 +171,14 @@ if "--worker" in sys.argv:
     vlib.worker_main(run_job)
 
 
+def vlib_scale():
+    """VERIF_SCALE (default 1): shrink/grow plan AND floors proportionally (recorded in the evidence)."""
+    try:
+        return max(0.01, float(os.environ.get("VERIF_SCALE", "1")))
+    except ValueError:
+        return 1.0
+
+
 def main():
     c = vlib.Check(
         PROP, "exploration",
@@ -198,6 +206,10 @@ def main():
     thorough = vlib.tier() == "thorough"
     plan = [("clean", 110), ("hazard", 50), ("mixed", 40)] if not thorough else \
         [("clean", 1800), ("hazard", 700), ("mixed", 700)]
+    scale = vlib_scale()
+    if scale != 1.0:
+        plan = [(m, max(10, int(n * scale))) for m, n in plan]
+        c.extra["plan_scale"] = scale
     per = 10 if not thorough else 40
     jobs = []
     for mode, n in plan:
@@ -208,10 +220,9 @@ def main():
     c.floor("experiments_built", total - total // 20)
     c.floor("evaluations", total * 3 - total // 5)
     c.floor("declaration_orders_judged", total * 3 * 6)
-    c.floor("cases_without_hazard_with_overlapping_names", 150 if not thorough else 3000)
-    c.floor("cases_all_permutations", 100 if not thorough else 2000)
-    c.floor("cases_with_output_reference", 100 if not thorough else 2000)
-    c.floor("cases_with_relative_spelling", 60 if not thorough else 1200)
+    for name, q, t in [("cases_without_hazard_with_overlapping_names", 150, 3000), ("cases_all_permutations", 100, 2000),
+                       ("cases_with_output_reference", 100, 2000), ("cases_with_relative_spelling", 60, 1200)]:
+        c.floor(name, int((t if thorough else q) * min(1.0, scale)))
     sys.exit(c.finish())
 
 
